@@ -660,3 +660,8 @@ inside:
     assert!(root.root().find(rule).is_some());
   }
 }
+
+#[cfg(feature = "verif-hooks")]
+pub mod verif_hooks {
+  pub use super::nth_child::verif_hooks as nth_child;
+}
